@@ -278,7 +278,7 @@ def fam_C03(rng, tier):
             out.append(Case(variant + tail, 'roots-inserted', ('memo', 'pair_equal'),
                             {'cfg': cfg, 'pair': 'b', 'common': common}))
     out += readers_vs_hasher(rng, tier)
-    return (out) + tree_direct(rng, tier)
+    return ((out) + tree_direct(rng, tier)) + [c for c in fam_C17(rng, tier) if c.family == 'builder-push-node-full-level']
 
 
 def fam_C04(rng, tier):
@@ -1006,6 +1006,22 @@ def fam_C10(rng, tier):
     return (out) + huge_repeat(rng, tier)
 
 
+def utils_direct(rng, tier):
+    out = []
+    # utils::int_log / compute_level compared directly on ranges and boundary values
+    r = sub(rng)
+    lines = [cfg_line(('u64', 8, 'btree'))]
+    ns = list(range(0, 70)) + [2 ** k + d for k in range(6, 64) for d in (-1, 0, 1)] + [2 ** 64 - 1, 2 ** 63 + 5]
+    for n in ns:
+        lines.append('intlog %d' % n)
+    for pd in (0, 1, 2, 3, 4, 5):
+        for d in (0, 1, 3, 10, 40, 63 - pd):
+            for i in list(range(0, 40)) + [2 ** k for k in range(5, 63, 7)] + [3 * 2 ** 20, 2 ** 62 + 2 ** 10]:
+                lines.append('complevel %d %d %d' % (i, d, pd))
+    out.append(Case(lines, 'utils-direct', (), {'cfg': ('u64', 8, 'btree')}))
+    return out
+
+
 def fam_C11(rng, tier):
     out = []
     kinds = KINDS
@@ -1037,17 +1053,7 @@ def fam_C11(rng, tier):
                         lines += ['new 2 list ' + ' '.join(xs[i:]), 'eq 1 2', 'root 2']
                     lines += ['clone 0 3', 'popslow 3 %d' % i, 'tovec 3', 'eq 3 1']
             out.append(Case(lines, 'suffix-all-indices', (), {'cfg': (kind, N, m)}))
-    # utils::int_log / compute_level compared directly on ranges and boundary values
-    r = sub(rng)
-    lines = [cfg_line(('u64', 8, 'btree'))]
-    ns = list(range(0, 70)) + [2 ** k + d for k in range(6, 64) for d in (-1, 0, 1)] + [2 ** 64 - 1, 2 ** 63 + 5]
-    for n in ns:
-        lines.append('intlog %d' % n)
-    for pd in (0, 1, 2, 3, 4, 5):
-        for d in (0, 1, 3, 10, 40, 63 - pd):
-            for i in list(range(0, 40)) + [2 ** k for k in range(5, 63, 7)] + [3 * 2 ** 20, 2 ** 62 + 2 ** 10]:
-                lines.append('complevel %d %d %d' % (i, d, pd))
-    out.append(Case(lines, 'utils-direct', (), {'cfg': ('u64', 8, 'btree')}))
+    out += utils_direct(rng, tier)
     # large N, aligned indices, after prior histories
     for cfg in pick_configs(rng, scale(tier, 30, 200)):
         kind, N, m = cfg
@@ -1286,7 +1292,7 @@ def fam_C15(rng, tier):
             out.append(Case(lines, 'faults' + ('-huge-N' if huge else ''), ('wellformed', 'error_atomic'),
                             {'cfg': cfg}))
     out += motif_histories(rng, tier)
-    return ((out) + unit_elements(rng, tier)) + map_level(rng, tier)
+    return (((out) + unit_elements(rng, tier)) + map_level(rng, tier)) + utils_direct(rng, tier)
 
 
 def fam_C16(rng, tier):
@@ -1532,6 +1538,14 @@ def huge_repeat(rng, tier):
                 lines += ['repeat 4 %d %s' % (n2, v), 'root 4' if r.random() < 0.5 else 'len 4', 'clone 4 1',
                           'pop 1 %d' % k, 'len 1', 'pending 1', 'root 1', 'get 1 0', 'get 1 %d' % (n2 - k - 1),
                           'get 1 %d' % (n2 - k), 'len 4', 'root 4', 'repeat 2 %d %s' % (n2 - k, v), 'root 2', 'dump 1 2']
+            # three of the four quarter subtrees pushed into the builder by pop_front
+            if N & (N - 1) == 0 and N >= 2 ** 26:
+                Lq = N.bit_length() - 3
+                n3 = 3 * 2 ** Lq + r.choice([1, 2, pfk + 1]) + 2 ** Lq * 0
+                n4 = 4 * 2 ** Lq - 2 ** Lq + 2 ** Lq  # = N
+                for nn, kk in ((n3 + 2 ** Lq if n3 + 2 ** Lq <= N else n3, 2 ** Lq), (n3, 2 ** Lq)):
+                    lines += ['repeat 6 %d %s' % (nn, v), 'clone 6 7', 'pop 7 %d' % kk, 'len 7', 'root 7', 'get 7 0',
+                              'get 7 %d' % (nn - kk - 1), 'get 7 %d' % (nn - kk)]
             lines += ['repeat 3 %d %s' % (N + r.choice([1, 2, 2 ** 20]), v), 'pop 0 %d' % (n + 1), 'len 0', 'apply 0',
                       'pending 0']
         out.append(Case(lines, 'huge-repeat', ('memo',), {'cfg': (kind, N, m)}))
@@ -1589,9 +1603,14 @@ def conc_heavy(rng, tier):
                 # few outer elements, large inner lists: each element root is a deep rayon fork-join
                 n = min(N, 48)
                 xs = [hexs(bytes(r.randrange(256) for _ in range(8 * r.choice([256, 512, 1024])))) for _ in range(n)]
+                if rnd % 2 == 1:
+                    xs = [xs[0]] * n          # (built by `repeat` below: one leaf shared by every position)
             else:
                 xs = [val(r, kind, pzero=0.1) for _ in range(n)]
-            lines.append('new 0 list ' + ' '.join(xs))
+            if kind == 'nest' and rnd % 2 == 1 and n:
+                lines.append('repeat 0 %d %s' % (n, xs[0]))
+            else:
+                lines.append('new 0 list ' + ' '.join(xs))
             lines.append('clone 0 1')
             if n:
                 lines += ['getmut 1 %d %s' % (r.randrange(n), val(r, kind, pzero=0.0)), 'apply 1']
@@ -1740,8 +1759,22 @@ def fam_C17(rng, tier):
                 lines += ['bfinish 2 %d' % (slot + 1), 'tlen %d' % (slot + 1), 'thash %d' % (slot + 1),
                           'tget %d %d %d' % (slot + 1, fill * 2 ** L - 1, depth), 'tget %d %d %d' % (slot + 1, fill * 2 ** L, depth)]
                 slot += 2
-        out.append(Case(lines, 'builder-push-node-full-level', (), {'cfg': (kind, 8, 'btree')}))
-    return out
+        if pf > 1:
+            # a value pushed after a whole (shared, possibly hashed) partial packed leaf was pushed as a
+            # node: the builder must not extend a node it does not own
+            for k in sorted({1, pf - 1, max(1, pf // 2)}):
+                vals_ = [val(r, kind) for _ in range(k)]
+                lines.append('bnew 1 0 0')
+                lines += ['bpush 1 %s' % x for x in vals_]
+                lines += ['bfinish 1 %d' % slot]
+                if r.random() < 0.6:
+                    lines.append('thash %d' % slot)
+                lines += ['bnew 2 1 0', 'bpushnode 2 %d %d' % (slot, k), 'bpush 2 %s' % val(r, kind, pzero=0.0),
+                          'bfinish 2 %d' % (slot + 1), 'tlen %d' % (slot + 1), 'thash %d' % (slot + 1), 'tdump %d' % (slot + 1),
+                          'tdump %d' % slot]
+                slot += 2
+        out.append(Case(lines, 'builder-push-node-full-level', ('memo',), {'cfg': (kind, 8, 'btree')}))
+    return (out) + huge_repeat(rng, tier)
 
 
 def common_core(rng, tier):
